@@ -296,7 +296,8 @@ class G:
             return lines
         if k < 0.70:
             self.note("s_optional")
-            return ["optional {"] + ["  " + x for x in self.block(depth + 1, r.randint(1, 2), must_match=True)] + ["}"]
+            first = '"' + self.lit_text(r.randint(1, 2)) + '"' if r.random() < 0.6 else "/" + r.choice("abcdxy01") + self.regex()[1:]
+            return ["optional {", "  " + first + ";"] + ["  " + x for x in self.block(depth + 1, r.randint(0, 2))] + ["}"]
         if k < 0.79:
             self.note("s_loop")
             name = f"L{len(self.loops)}"
